@@ -261,6 +261,110 @@ def run_one(ctl, cfg: Dict[str, Any]) -> Dict[str, Any]:
     return obs
 
 
+# ---------------------------------------------------------------------------
+# the library's own multi-server runner leaves the same context on the caller's behalf
+# ---------------------------------------------------------------------------
+RUN_HOST = "vf.checks.c16_real:run_host"
+HOST_BEHAVIOURS = ["well", "ignore-term", "exit-after-response", "exit-on-request", "slow-start"]
+
+
+def run_host(ctl, cfg: Dict[str, Any]) -> Dict[str, Any]:
+    """run_command(command, config, servers) with real children: when it returns, every child it launched is gone."""
+    import json
+    import shutil
+    import tempfile
+
+    from chuk_mcp.mcp_client.host import server_manager
+    from chuk_mcp.protocol.messages.send_message import send_message
+
+    behaviours = cfg["servers"]
+    pids: List[int] = []
+    orig_open = anyio.open_process
+
+    async def recording_open(command, **kw):
+        p = await orig_open(command, **kw)
+        pids.append(p.pid)
+        return p
+
+    tmp = tempfile.mkdtemp(prefix="c16-host-")
+    conf = os.path.join(tmp, "servers.json")
+    names = [f"s{i}" for i in range(len(behaviours))]
+    with open(conf, "w") as f:
+        json.dump({"mcpServers": {n: {"command": sys.executable, "args": [CHILD, b]} for n, b in zip(names, behaviours)}}, f)
+    info: Dict[str, Any] = {"requests": []}
+
+    async def command(streams, **kw):
+        info["connected"] = len(streams)
+        for (read, write) in streams:
+            try:
+                await send_message(read, write, "tools/list", timeout=1.0, message_id="q1")
+                info["requests"].append("result")
+            except TimeoutError:
+                info["requests"].append("timeout")
+            except Exception as e:  # noqa: BLE001
+                info["requests"].append("error:" + type(e).__name__)
+        if cfg["cmd"] == "raises":
+            raise RuntimeError("command failed")
+        if cfg["cmd"] == "keyboard-interrupt":
+            raise KeyboardInterrupt()
+        return True if cfg["cmd"] == "chat-true" else None
+
+    if cfg["cmd"] == "chat-true":
+        command.__name__ = "chat_run"
+    gc.collect()
+    fds0 = _nfds()
+    orig_system = os.system
+    anyio.open_process = recording_open
+    os.system = lambda *_a, **_k: 0
+    devnull = open(os.devnull, "w")
+    old_out = sys.stdout
+    sys.stdout = devnull
+    t0 = time.monotonic()
+    try:
+        try:
+            server_manager.run_command(command, conf, names)
+            outcome = "returned"
+        except BaseException as e:  # noqa: BLE001
+            outcome = "raised:" + type(e).__name__
+    finally:
+        dur = time.monotonic() - t0
+        sys.stdout = old_out
+        devnull.close()
+        anyio.open_process = orig_open
+        os.system = orig_system
+    time.sleep(0.2)
+    states = {pid: _proc_state(pid) for pid in pids}
+    gc.collect()
+    fds1 = _nfds()
+    for pid in pids:  # never leave anything behind, whatever the verdict
+        try:
+            os.kill(pid, signal.SIGKILL)
+        except ProcessLookupError:
+            pass
+        try:
+            os.waitpid(pid, os.WNOHANG)
+        except ChildProcessError:
+            pass
+    shutil.rmtree(tmp, ignore_errors=True)
+    viol: List[dict] = []
+
+    def bad(cls, msg, **extra):
+        viol.append({"sig": {"class": cls, "entry": "run_command", **extra}, "msg": f"cfg={cfg}: {msg}"})
+
+    if len(pids) != len(behaviours):
+        bad("host-did-not-launch", f"{len(pids)} children for {len(behaviours)} servers; info={info}")
+    for pid, b in zip(pids, behaviours):
+        if states[pid] is not None:
+            bad("child-left-behind", f"child #{pids.index(pid)} ({b}) is in state {states[pid]!r} after run_command returned", behaviour=b,
+                state="zombie" if states[pid] == "Z" else "running")
+    allowed = 2.0 * len(behaviours) + SLACK + 1.0 * len(behaviours)
+    if dur > allowed:
+        bad("exit-too-slow", f"run_command took longer than {allowed}s")
+    if fds1 > fds0:
+        bad("fd-leak", f"{fds1 - fds0} more open file descriptors after run_command returned")
+    return {"outcome": f"{outcome}/{info.get('connected')}", "violations": viol}
+
+
 def add_real_part(res: core.Result, tier: str) -> None:
     if not os.path.isdir("/proc/self/fd"):
         res.assumptions.append("real-child part skipped: /proc not available")
@@ -272,6 +376,15 @@ def add_real_part(res: core.Result, tier: str) -> None:
         cfgs = [{"behaviour": b, "exit": e, "moment": m} for b in BEHAVIOURS for e in EXITS for m in MOMENTS]
     out = explorer.explore(RUN, cfgs, workers=8)
     sched.absorb(res, "real-children", RUN, out, cfgs, real_world=True)
+    # the multi-server runner: 1-2 servers x what the command does
+    hcfgs = [{"servers": [b], "cmd": c} for b in HOST_BEHAVIOURS for c in ("returns", "raises", "chat-true", "keyboard-interrupt")]
+    pairs = [["well", "ignore-term"], ["ignore-term", "well"], ["ignore-term", "ignore-term"], ["well", "well"]]
+    if tier == "thorough":
+        pairs = [[a, b] for a in HOST_BEHAVIOURS for b in HOST_BEHAVIOURS]
+        hcfgs += [{"servers": ["ignore-term", "well", "ignore-term"], "cmd": "returns"}]
+    hcfgs += [{"servers": p, "cmd": c} for p in pairs for c in ("returns", "raises")]
+    out = explorer.explore(RUN_HOST, hcfgs, workers=8)
+    sched.absorb(res, "real-children-through-run_command", RUN_HOST, out, hcfgs, real_world=True, min_outcomes=1)
     res.assumptions.append(
         "real-child part: wall-clock bound uses 3 s slack; zombie detection relies on /proc (Linux); "
         "the kernel chooses the interleaving, every matrix cell is run once per check"
